@@ -511,7 +511,17 @@ def r12_4(ctx, prog, crate):
             ret = x.prov.local_src(0)
             ctx.check(any(z.kind in ("upvar", "param") or (z.kind == "call" and z.a.endswith("as_ref")) for z in ret), "R12.4", ["EntryList::iter", "yields-current-entry"], "closure result: %s" % sorted(z.label() for z in ret), x.where(0))
         names = {c.callee.rsplit("::", 1)[-1] for c in itb.live_calls()}
-        ctx.check("flatten" in names and "from_fn" in names, "R12.4", ["EntryList::iter", "skips-the-root-placeholder"], "iter() calls %s" % sorted(names), itb.where(0))
+        # a node without an entry (the root placeholder) yields nothing and does not end the walk: the walk produces one item per
+        # node (from_fn / successors) and the empty ones are dropped afterwards (flatten / filter_map / flat_map)
+        walks = {"from_fn", "successors"} & names
+        drops = {"flatten", "filter_map", "flat_map"} & names
+        ctx.check(bool(walks) and bool(drops) and not ({"take_while", "map_while", "skip", "take", "step_by", "scan"} & names), "R12.4",
+                  ["EntryList::iter", "skips-the-root-placeholder"], "iter() calls %s" % sorted(names), itb.where(0))
+        if "successors" in names and len(cl) >= 2:
+            # successors(Some(self), |l| l.next()).filter_map(|l| l.entry): the entry comes from the node the walk is at
+            fm = [x_ for x_ in cl if not any(c_.callee == "entry::list::EntryList::next" for c_ in x_.live_calls())]
+            okf = len(fm) == 1 and any(z.kind == "param" and z.b and z.b[-1] == "entry" for z in fm[0].prov.local_src(0)) and not fm[0].live_calls()
+            ctx.check(okf, "R12.4", ["EntryList::iter", "yields-current-entry"], "the entry yielded is not the visited node's own `entry`", itb.where(0))
     gi = prog.body("entry::GroupEntry::generic_benches_iter", crate)
     if ctx.anchor("R12.4", "GroupEntry::generic_benches_iter", 1 if gi else 0, 1):
         names = {c.callee.rsplit("::", 1)[-1] for x in prog.closure_tree(gi) for c in x.live_calls()}
